@@ -205,6 +205,7 @@ type analyzer struct {
 	p       *Prog
 	prog    *ssa.Program
 	cursorT *types.Named
+	holders map[*types.Named]bool // structs of the package holding the cursor by value
 	posIdx  int
 	inIdx   int
 	next    *ssa.Function
@@ -467,12 +468,7 @@ func (a *analyzer) normalisePeeks(v *ssa.Function) {
 	if origFn(v) == v {
 		return // nothing was inlined: the function is as written
 	}
-	isCursor := func(t types.Type) bool {
-		if pt, ok := t.(*types.Pointer); ok {
-			t = pt.Elem()
-		}
-		return a.cursorT != nil && types.Identical(t, a.cursorT)
-	}
+	isCursor := a.isCursorT
 	touches := func(in ssa.Instruction) bool {
 		switch x := in.(type) {
 		case *ssa.FieldAddr:
@@ -530,7 +526,27 @@ func (a *analyzer) isCursorMethod(f *ssa.Function) bool {
 		return false
 	}
 	pt, ok := f.Signature.Recv().Type().(*types.Pointer)
-	return ok && types.Identical(pt.Elem(), a.cursorT)
+	return ok && a.isCursorT(pt.Elem())
+}
+
+// isCursorT: t is (a pointer to) the cursor type or a struct of the package that holds the cursor by value (`parser`
+// embedding the `scanner` that has the input and the position): its methods read through the same cursor.
+func (a *analyzer) isCursorT(t types.Type) bool {
+	if pt, ok := t.(*types.Pointer); ok {
+		t = pt.Elem()
+	}
+	if a.cursorT == nil {
+		return false
+	}
+	if types.Identical(t, a.cursorT) {
+		return true
+	}
+	for h := range a.holders {
+		if types.Identical(t, h) {
+			return true
+		}
+	}
+	return false
 }
 
 func (a *analyzer) requireClean(st *state, instr ssa.Instruction, fn *ssa.Function, what string) {
@@ -1187,9 +1203,41 @@ func RunCursor(p *Prog, pkgpath string) *CursorResult {
 		res.Problem = "no cursor type found (a struct whose string member is indexed by its int member)"
 		return res
 	}
-	ms := p.SSA.MethodSets.MethodSet(types.NewPointer(a.cursorT))
-	for i := 0; i < ms.Len(); i++ {
-		f := p.SSA.MethodValue(ms.At(i))
+	a.holders = map[*types.Named]bool{}
+	if pk := p.Pkgs[pkgpath]; pk != nil && pk.Types != nil {
+		sc := pk.Types.Scope()
+		for _, nm := range sc.Names() {
+			tn, ok := sc.Lookup(nm).(*types.TypeName)
+			if !ok {
+				continue
+			}
+			nt, ok := tn.Type().(*types.Named)
+			if !ok || nt == a.cursorT {
+				continue
+			}
+			if st, ok := nt.Underlying().(*types.Struct); ok {
+				for i := 0; i < st.NumFields(); i++ {
+					if types.Identical(st.Field(i).Type(), a.cursorT) {
+						a.holders[nt] = true
+					}
+				}
+			}
+		}
+	}
+	var allMethods []*ssa.Function
+	seenM := map[*ssa.Function]bool{}
+	for _, recvT := range append([]*types.Named{a.cursorT}, namedKeys(a.holders)...) {
+		ms := p.SSA.MethodSets.MethodSet(types.NewPointer(recvT))
+		for i := 0; i < ms.Len(); i++ {
+			f := p.SSA.MethodValue(ms.At(i))
+			if f == nil || seenM[f] || recvT != a.cursorT && f.Synthetic != "" {
+				continue // (methods promoted from the cursor are wrappers of the ones already listed)
+			}
+			seenM[f] = true
+			allMethods = append(allMethods, f)
+		}
+	}
+	for _, f := range allMethods {
 		if p.consumed[f] {
 			continue // a higher-order helper whose call sites were all resolved by the normalisation pass
 		}
@@ -1455,4 +1503,13 @@ func countedLoop(h *ssa.BasicBlock) bool {
 		}
 	}
 	return false
+}
+
+func namedKeys(m map[*types.Named]bool) []*types.Named {
+	var out []*types.Named
+	for k := range m {
+		out = append(out, k)
+	}
+	sort.Slice(out, func(i, j int) bool { return out[i].Obj().Name() < out[j].Obj().Name() })
+	return out
 }
